@@ -368,10 +368,69 @@ def _run_case(ctx, case, scratch, dep, srcdir, scripts, sheets, wit):
     return True
 
 
+def run_siblings_case(ctx, rng, scratch):
+    """Several dependencies saved together whose directory names are prefixes / suffixes of one another; then the sources
+    change and the same document is saved again into the same place."""
+    names = rng.sample(["boot", "boot-icons", "boot-icons-extra", "boot-1", "bootx", "boo"], rng.randint(2, 4))
+    iv = rng.random() < 0.6
+    libdir = rng.choice(["lib", None, "a/b"])
+    out = scratch.dir("out")
+    deps, srcs = [], []
+    for i, nm in enumerate(names):
+        srcdir = os.path.join(scratch.dir("src"), "s")
+        files = rng.sample(["a.js", "b c.js", "sub/n.js", "x.css"], rng.randint(1, 3))
+        make_source(srcdir, files, extra=False)
+        deps.append(ht.HTMLDependency(nm, rng.choice(["1.0", "2.0", "1.0-1"]) if False else rng.choice(["1.0", "2.0"]), source={"subdir": srcdir},
+                                      script=[{"src": f} for f in files if f.endswith(".js")], stylesheet=[{"href": f} for f in files if f.endswith(".css")]))
+        srcs.append((srcdir, files))
+    wit = {"scenario": "sibling dependencies", "names": names, "include_version": iv, "libdir": libdir}
+    ctx.count("monitor.sibling_saves")
+    file = os.path.join(out, "index.html")
+    doc = ht.HTMLDocument(ht.div("t", *deps))
+
+    def verify(tag):
+        destdir = os.path.join(out, libdir) if libdir else out
+        for d, (srcdir, files) in zip(deps, srcs):
+            target = os.path.join(destdir, urls.dep_dir(d.name, str(d.version), iv))
+            for f in files:
+                p = os.path.join(target, f)
+                if not os.path.isfile(p) or sha(p) != sha(os.path.join(srcdir, f)):
+                    ctx.violation("copied-file-differs", "%s: file %r of dependency %s is missing or differs from its source" % (tag, f, d.name), wit)
+                    return False
+            extra = [k for k, v in snapshot(target).items() if v != "dir" and k not in files]
+            if extra:
+                ctx.violation("stale-files-survive", "%s: unexpected files %r in the directory of %s" % (tag, extra[:4], d.name), wit)
+                return False
+        return True
+
+    try:
+        doc.save_html(file, libdir=libdir, include_version=iv)
+    except Exception as e:
+        ctx.violation("copy-raises", "saving sibling dependencies raised %r" % e, wit)
+        return False
+    if not verify("first save"):
+        return False
+    # the sources change (new bytes, one file more in the listing is not possible without a new definition), a stale file appears
+    for srcdir, files in srcs:
+        with open(os.path.join(srcdir, files[0]), "a") as fh:
+            fh.write("/* changed after the first save */")
+    destdir = os.path.join(out, libdir) if libdir else out
+    stale = os.path.join(destdir, urls.dep_dir(deps[0].name, str(deps[0].version), iv), "stale-from-elsewhere.txt")
+    with open(stale, "w") as fh:
+        fh.write("stale")
+    try:
+        doc.save_html(file, libdir=libdir, include_version=iv)
+    except Exception as e:
+        ctx.violation("copy-raises", "second save raised %r" % e, wit)
+        return False
+    return verify("second save after the sources changed")
+
+
 def replay(ctx, w):
     scratch = Scratch()
     try:
-        run_case(ctx, w["case"], scratch)
+        if "case" in w:
+            run_case(ctx, w["case"], scratch)
     finally:
         scratch.close()
 
@@ -401,7 +460,7 @@ def run(ctx):
         ex = {"name": "dep-1", "version": "1.0", "scripts": ["b c.js", "100%.js"], "sheets": ["中文.css"]}
         d = ht.HTMLDependency("dep-1", "1.0", source={"subdir": "/nonexistent"}, script=[{"src": s} for s in ex["scripts"]], stylesheet={"href": ex["sheets"][0]})
         ctx.sample({"dependency": ex, "as_dict_urls": [s["src"] for s in d.as_dict()["script"]] + [s["href"] for s in d.as_dict()["stylesheet"]]})
-        for _ in range(ctx.budget(200, 90000)):
+        for _ in range(ctx.budget(120, 90000)):
             case = rand_case(rng)
             ctx.guard(run_case, ctx, case, scratch, witness={"case": case})
             ctx.case(case, nontrivial=hot(case))
@@ -416,6 +475,9 @@ def run(ctx):
                         ctx.case(c2, nontrivial=True)
                         ctx.state("missing_subset_sizes", (len(listed), k))
                 ctx.count("deps_with_all_missing_subsets")
+            if rng.random() < 0.15:
+                ctx.guard(run_siblings_case, ctx, rng, scratch, witness={"scenario": "sibling dependencies"})
+                ctx.case(("siblings", scratch.n), nontrivial=True)
             if scratch.n > 400:
                 scratch.close()
                 scratch = Scratch()
